@@ -35,7 +35,12 @@ META = dict(
                "after labels_types was computed, or built by hand like another client would (raw JSON, own type table): "
                "labels_types covers all / some / none of the labels, is {} / null / absent, names absent labels; the timeout "
                "label is typed or arrives as the plain JSON value; label values are also bool / None / lists / falsy - the task "
-               "must run with every label of the message, the un-typed timeout is enforced, the result carries all labels.",
+               "must run with every label of the message, the un-typed timeout is enforced, the result carries all labels. "
+               "In a seventh of the cases a task NAME is re-registered between messages handled by the one long-lived Receiver "
+               "(broker.register_task / @broker.task again at run time; also a name that was unknown when its first message "
+               "arrived): 2-4 functions under one name, mostly of the other kind (sync <-> async) than their predecessor, with "
+               "their own body / outcome / durations / timeout label / parameter list, the predecessor possibly still running - "
+               "every message must store the result of the function registered under its name when it was delivered.",
     level_note="Known finding sync_generator_exit (D10): a SYNC function raising GeneratorExit - the theorems exclude exactly "
                "that region (wf_recv: sync_genexit c = false) and C07_one_save_refuted_sync_genexit exhibits it. The statement "
                "claims timeout enforcement for async functions only; for sync functions wait_for gives up but the thread "
@@ -54,7 +59,10 @@ META = dict(
                   "asyncio.wait_for / thread-pool behaviour as modelled by body_run (exercised, not verified)"],
     assumptions=["post_execute / post_save hooks may rewrite the shared TaskiqResult object: the theorems say what is saved "
                  "is the object as the hooks left it (res2); with result-preserving hooks it is the raw outcome",
-                 "sync body under timeout <= 0 is a thread race (c_race): exercised through scripted eager / lazy executors only"],
+                 "sync body under timeout <= 0 is a thread race (c_race): exercised through scripted eager / lazy executors only",
+                 "functions registered one after the other under one task name declare the same dependencies (the Receiver "
+                 "keeps signature, type hints and dependency graph per task NAME: corpus/C07/proposed/"
+                 "reregistered_other_dependencies.json is a candidate finding, not part of the stream)"],
 )
 
 
